@@ -158,9 +158,22 @@ class Box:
         for root, dirs, files in os.walk(base):
             for f in files:
                 p = os.path.join(root, f)
-                with open(p, encoding="utf-8") as fh:
-                    out[os.path.relpath(p, base)] = fh.read()
+                try:
+                    with open(p, encoding="utf-8") as fh:
+                        out[os.path.relpath(p, base)] = fh.read()
+                except (OSError, UnicodeDecodeError) as e:      # a dangling link, a file that vanished, bytes that are no text
+                    out[os.path.relpath(p, base)] = f"<unreadable: {type(e).__name__}>"
         return out
+
+    def page(self, sub, name):
+        """text of one generated file below `sub`; '' (never an exception) if it is not there - the caller's comparison then
+        fails as a violation instead of the harness crashing"""
+        p = self.path(sub, name)
+        try:
+            with open(p, encoding="utf-8") as fh:
+                return fh.read()
+        except (OSError, UnicodeDecodeError):
+            return ""
 
 
 def toctree_entries(index_text):
